@@ -62,7 +62,7 @@ class Gen(object):
     t = self.t
     beh = {'kind': 'ret', 'val': 'CONTINUE'}
     if self.chance('p_fault_beh'):
-      opts = [(3, ('ret', 'FAIL_AND_CONTINUE')), (2, ('ret', 'SKIP')),
+      opts = [(6 if in_subtest else 3, ('ret', 'FAIL_AND_CONTINUE')), (2, ('ret', 'SKIP')),
               (2, ('ret', 'STOP')), (3, ('raise', 'ValueError')), (1, ('raise', 'FailExc')),
               (1, ('junk', 'int')), (1, ('junk', 'false')), (1, ('junk', 'str')),
               (1, ('junk', 'zero')), (1, ('junk', 'empty')), (1, ('ret', 'NONE')),
@@ -206,9 +206,10 @@ class Gen(object):
     p = self.p
     if depth >= p['max_depth']:
       return self.phase(in_subtest, in_teardown)
-    kinds = [(p['w_phase'], 'phase'), (p['w_group'], 'group'), (p['w_subtest'], 'subtest'),
-             (p['w_branch'], 'branch'), (p['w_seq'], 'seq'), (p['w_ckpt_fail'], 'ckpt_fail'),
-             (p['w_ckpt_diag'], 'ckpt_diag')]
+    boost = 3 if in_subtest else 1
+    kinds = [(p['w_phase'], 'phase'), (p['w_group'], 'group'), (p['w_subtest'] * (2 if in_subtest else 1), 'subtest'),
+             (p['w_branch'], 'branch'), (p['w_seq'], 'seq'), (p['w_ckpt_fail'] * boost, 'ckpt_fail'),
+             (p['w_ckpt_diag'] * boost, 'ckpt_diag')]
     kinds = [(w, k) for (w, k) in kinds if w > 0]
     kind = t.weighted(kinds, 'kind')
     if kind == 'phase':
@@ -245,7 +246,8 @@ class Gen(object):
     if kind == 'ckpt_fail':
       return {'t': 'ckpt_fail', 'name': '%sck%d' % (tg, idx),
               'action': t.weighted([(2, 'STOP'), (2, 'FAIL_SUBTEST')], 'action'),
-              'prev': t.pick(['LAST', 'ALL', 'SUBTEST'], 'prev')}
+              'prev': (t.weighted([(1, 'LAST'), (1, 'ALL'), (3, 'SUBTEST')], 'prev') if in_subtest
+                       else t.pick(['LAST', 'ALL', 'SUBTEST'], 'prev'))}
     if kind == 'ckpt_diag':
       nres = 1 + t.draw(2, 'nres')
       results = []
